@@ -185,8 +185,23 @@ def check(index, ctx):
                             lo_ = hi_ - k_
                         else:
                             hi_ = lo_ + k_
+                    # ... then sliced along the same axis: topk returns its k entries in order (ascending for largest=False), so positions [s, t) of
+                    # them are the ranks [lo + s, lo + t), resp. [hi - t, hi - s) for the descending order of largest=True
+                    sl_ = [e for e in ops if e["sop"] in ("slice", "narrow") and chain_[-1]["id"] in e["in_origin"] and e.get("axis_pos") == 0]
+                    if sl_ and bad_ is None:
+                        last_ = chain_[-1]
+                        if last_.get("sorted") is not True:
+                            bad_ = f"{sl_[0]['loc']}: positions of a topk(sorted=False) result are sliced: which entries they hold is not defined"
+                        else:
+                            s_, t_, pr_ = window_of(sl_, last_["k_poly"], ctx, "T", key, cls.loc())
+                            if pr_:
+                                bad_ = "; ".join(pr_)
+                            elif last_["largest"]:
+                                lo_, hi_ = hi_ - t_, hi_ - s_
+                            else:
+                                lo_, hi_ = lo_ + s_, lo_ + t_
                     red = [e for e in ops if e["sop"] == "reduce" and chain_[-1]["id"] in e["in_origin"]]
-                    okr = len(red) == 1 and red[0]["fn"] == "mean" and red[0]["over_pos"] == [chain_[-1]["axis_pos"]]
+                    okr = len(red) == 1 and red[0]["fn"] == "mean" and red[0]["over_pos"] == [chain_[-1]["axis_pos"]] and all(e["id"] in red[0]["in_origin"] for e in sl_)
                     ctx.require(bad_ is None and lo_ == b and hi_ == m - b, "T", "TrimmedMean.forward: trimming window", f"partial selections keep the ranks [{lo_}, {hi_}) == [trim_number, m - trim_number)",
                                 bad_ or f"the partial selections keep the ranks [{lo_}, {hi_}) of every column, not [trim_number, m - trim_number)", chain_[0]["loc"],
                                 derivation={"start": repr(lo_), "stop": repr(hi_), "ops": [e["text"] for e in chain_]})
@@ -259,6 +274,22 @@ def check(index, ctx):
             ops = sops(r)
             cd = list({e["id"]: e for e in ops if e["sop"] == "cdist"}.values())  # (a store executed in a loop is re-evaluated by the fixpoint iteration: one id, several events)
             if len(cd) == 0:
+                # no distances from differences, and the ordering of the neighbours derives from J @ J.T: the distances can only have been rebuilt from inner
+                # products (||x||^2 + ||y||^2 - 2 x.y), which cancels catastrophically when rows share a large component or differ by orders of magnitude
+                mis = [e for e in r.events if e["kind"] == "pdist_scatter_mismatch"]
+                if mis:
+                    ctx.violated("K", "Krum: distances land on the pairs they belong to",
+                                 f"`{mis[0]['text'][:70]}` scatters torch.pdist(matrix) through {mis[0].get('indices')}_indices: {mis[0].get('why')} — another enumeration "
+                                 "of the pairs agrees with it for at most 3 rows, from 4 rows on distances are attributed to other pairs of rows", mis[0]["loc"])
+                    continue
+                gr = [e for e in ops if e["sop"] == "gramian"]
+                by_g = [e for e in ops if e["sop"] in ("topk", "sort", "argsort") and e.get("axis") == "R" and e.get("in_axes") == ["R", "R"] and gr and any(g["id"] in e["in_origin"] for g in gr)]
+                if by_g:
+                    ctx.violated("K", "Krum: distances computed from exact differences",
+                                 f"`{by_g[0]['text'][:70]}` orders values derived from the Gramian `{gr[0]['text'][:50]}` and no distance between rows is computed from their "
+                                 "difference: squared norms minus twice the inner products lose all significant digits for rows with a large common component (and for corrupted rows "
+                                 "1e12 times the honest scale), so which rows are nearest — and which are selected — is decided by rounding noise", by_g[0]["loc"])
+                    continue
                 ctx.undecided("K", "Krum: pairwise distances", "no value recognised as the matrix of pairwise distances between the rows (torch.cdist(matrix, matrix), F.pairwise_distance of the "
                               "broadcast rows, or `buf[i] = vector_norm(matrix - row)` for every (i, row) of enumerate(matrix))", cls.loc())
                 continue
